@@ -314,4 +314,57 @@ Section Upd.
     + apply HH. apply (L_dl1_inj E LW). rewrite (L_dl1_zero E LW). exact H0.
   Qed.
 
+  (* ---------------------------------------------------------------- path independence *)
+  (* two signatures with the same exponent that verify for the same key, vector and header have the same point:
+     A = B / (sk + e) is determined (no hypothesis on how they were obtained) *)
+  Theorem verify_same_e_same_A sk header msgs s1 s2 :
+    verify E s1 (sk_to_pk E sk) (Some msgs) header = Ok tt ->
+    verify E s2 (sk_to_pk E sk) (Some msgs) header = Ok tt ->
+    sig_e E s1 = sig_e E s2 ->
+    sk + sig_e E s1 <> 0 ->
+    sig_A E s1 = sig_A E s2.
+  Proof.
+    intros H1 H2 He Hnz. unfold verify in *. cbn [option_default] in *.
+    destruct (messages_to_scalars E msgs (c_api_id (cs E))) as [ms| | |]; cbn [bind] in *; try discriminate.
+    destruct (gens_create E _ _) as [g| | |]; cbn [bind] in *; try discriminate.
+    apply core_verify_iff in H1 as [B1 [HB1 H1]]. apply core_verify_iff in H2 as [B2 [HB2 H2]].
+    rewrite HB1 in HB2. inversion HB2; subst B2; clear HB2.
+    unfold sk_to_pk in H1, H2. rewrite (L_dl2_gen E LW) in H1, H2. rewrite <- He in H2.
+    apply (L_dl1_inj E LW).
+    transitivity (finv S (sk + sig_e E s1) * ((sk + sig_e E s1) * d1 (sig_A E s1))); [field; assumption|].
+    rewrite H1, <- H2. field; assumption.
+  Qed.
+
+  (* the result of a history depends only on the vector it ends in: two update histories from the same valid signature that
+     end in the same vector end in the same signature (point and exponent) *)
+  Theorem update_path_independent sk header s msgs ups1 ups2 sa ma sb mb :
+    suite_ok E ->
+    verify E s (sk_to_pk E sk) (Some msgs) header = Ok tt ->
+    run_updates s sk msgs ups1 = Ok (sa, ma) ->
+    run_updates s sk msgs ups2 = Ok (sb, mb) ->
+    apply_updates msgs ups1 = apply_updates msgs ups2 ->
+    sk + sig_e E s <> 0 ->
+    sig_A E sa = sig_A E sb /\ sig_e E sa = sig_e E sb.
+  Proof.
+    intros Hs Hv Ha Hb Heq Hnz.
+    destruct (update_history_inv _ _ _ _ _ _ _ Hs Hv Ha) as [Hma [_ [Hea Hva]]].
+    destruct (update_history_inv _ _ _ _ _ _ _ Hs Hv Hb) as [Hmb [_ [Heb Hvb]]].
+    assert (Hm : mb = ma) by congruence. rewrite Hm in Hvb.
+    split; [|congruence].
+    apply (verify_same_e_same_A sk header ma); [exact Hva|exact Hvb|congruence|rewrite Hea; exact Hnz].
+  Qed.
+
+  (* undoing: a history that ends in the original vector returns the original signature *)
+  Corollary update_undo sk header s msgs ups sa ma :
+    suite_ok E ->
+    verify E s (sk_to_pk E sk) (Some msgs) header = Ok tt ->
+    run_updates s sk msgs ups = Ok (sa, ma) ->
+    apply_updates msgs ups = msgs ->
+    sk + sig_e E s <> 0 ->
+    sig_A E sa = sig_A E s /\ sig_e E sa = sig_e E s.
+  Proof.
+    intros Hs Hv Ha Heq Hnz.
+    apply (update_path_independent sk header s msgs ups [] sa ma s msgs); auto.
+  Qed.
+
 End Upd.
